@@ -20,7 +20,35 @@ def lit_str(s):
     return '"' + s.replace("\\", "\\\\").replace('"', '\\"') + '"'
 
 
+MINIMAL = False      # print with the fewest parentheses the documented precedence table allows
+
+PREC = {'||': 1, '&&': 2, '<': 3, '<=': 3, '>': 3, '>=': 3, '==': 3, '!=': 3, '+': 7, '-': 7, '*': 8, '/': 8, '%': 8}
+
+
+def pe_min(e, ctx=0, right=False):
+    """Minimal parenthesisation: every binary operator is left-associative; a child is parenthesised only when
+    the grammar would otherwise attach it differently (lower level, or same level on the right)."""
+    k = e[0]
+    if k == 'bin':
+        p = PREC[e[1]]
+        s = "%s %s %s" % (pe_min(e[2], p, False), e[1], pe_min(e[3], p, True))
+        return "(%s)" % s if (p < ctx or (p == ctx and right)) else s
+    if k in ('not', 'neg'):
+        sym = '!' if k == 'not' else '-'
+        inner = e[1]
+        if inner[0] in ('var', 'bool', 'call', 'take') or (inner[0] == 'int' and inner[1] >= 0):
+            s = sym + pe_min(inner, 9, False)
+        else:
+            s = "%s(%s)" % (sym, pe_min(inner, 0, False))
+        return "(%s)" % s if right else s          # `a - -b` is avoided, `-a * b` is not
+    if k == 'call':
+        return "%s(%s)" % (e[1], ", ".join(pe_min(a) for a in e[2]))
+    return pe(e)
+
+
 def pe(e):
+    if MINIMAL and e[0] in ('bin', 'not', 'neg', 'call'):
+        return pe_min(e)
     k = e[0]
     if k == 'int':
         return str(e[1]) if e[1] >= 0 else "(%d)" % e[1]
@@ -113,9 +141,14 @@ take = fn() -> bool {
 """
 
 
-def render(prog, decisions, uses_take):
+def render(prog, decisions, uses_take, minimal=False):
+    global MINIMAL
     out = []
-    ps(prog, 0, out)
+    MINIMAL = minimal
+    try:
+        ps(prog, 0, out)
+    finally:
+        MINIMAL = False
     body = "\n".join(out) + "\n"
     if uses_take:
         dec = list(decisions) if decisions else [False]
@@ -934,6 +967,21 @@ def systematic_programs(max_level=2):
                     body = wrap(kind, body, "k%d" % (len(chain) - lvl), True)
                 emit([P("begin")] + body + [P("end")], ["sys"] + list(chain) + [ex + "-tail"])
 
+    # two exits in one loop body: a guarded exit followed by an unconditional exit as the LAST statement of the
+    # body (the retry idiom `while .. { ..; if c { continue }; return v }`), every loop x guard x exit pair
+    for L in LOOPS:
+        for g in ('if', 'else', 'elseif'):
+            for ex1 in ('break', 'continue', 'return'):
+                for ex2 in ('break', 'continue', 'return'):
+                    ctr[0] = 0
+                    mk = lambda ex, v: ('return', ('int', v)) if ex == 'return' else (ex,)
+                    inner = wrap(g, [P("ex1"), mk(ex1, 7)], "g", True)
+                    body = wrap(L, [P("in")] + inner + [P("mid"), mk(ex2, 8)], "k1", True)
+                    f = fresh('f')
+                    prog = [P("begin"), ('fn', f, [], 'int', [P("fn")] + body + [P("fell"), ('return', ('int', 1))]),
+                            ('print', ('call', f, [])), ('print', ('call', f, [])), P("end")]
+                    emit(prog, ["sys-two-exits", L, g, ex1, ex2])
+
     # self-referential updates: every operator in both operand orders, ints and strings, at module level,
     # inside a block and inside a function (plain `x = x (+) e` and the op-assign spelling)
     for where in ('module', 'block', 'fn'):
@@ -990,4 +1038,66 @@ def systematic_programs(max_level=2):
                             stmts = pre + [loop] + post
                         emit([P("begin")] + stmts + [P("end")],
                              ["sys-from", 'T' if incl else 't', str(step), ck, "%d..%d" % (a, b), ex])
+    out.extend(precedence_programs())
+    return out
+
+
+def precedence_programs():
+    """sys-prec family (rendered with minimal parentheses): every well-typed pair of binary operators in both
+    tree shapes, plus the unary operators against each binary level, over variable and literal operands, with
+    operand values for which the two possible groupings differ."""
+    AR, CMP, LOG = ['+', '-', '*', '/', '%'], ['<', '<=', '>', '>=', '==', '!='], ['&&', '||']
+    INTS = [(7, 3, 2), (2, 7, 3), (-8, 3, 2), (9, -5, 4)]
+    BOOLS = [(a, b, c) for a in (True, False) for b in (True, False) for c in (True, False)]
+    out = []
+
+    def prog(shape, make, ityped, btyped):
+        """make(leaf) -> expression, leaf(kind, i) -> operand i of kind 'i'|'b'."""
+        stmts = []
+        for lit in (False, True):
+            for iv in (INTS if ityped else [(0, 0, 0)]):
+                for bv in (BOOLS if btyped else [(False,) * 3]):
+                    if not lit:
+                        for j in range(3):
+                            if ityped:
+                                stmts.append(('assign', 'x%d' % j, ('int', iv[j])))
+                            if btyped:
+                                stmts.append(('assign', 'p%d' % j, ('bool', bv[j])))
+                    leaf = (lambda kd, j, iv=iv, bv=bv, lit=lit:
+                            (('int', iv[j]) if kd == 'i' else ('bool', bv[j])) if lit else ('var', ('x%d' if kd == 'i' else 'p%d') % j))
+                    e = make(leaf)
+                    stmts.append(('assign', 'res', e))
+                    stmts.append(('print', ('var', 'res')))
+        out.append((stmts, False, ["sys-prec"] + shape))
+
+    I = lambda l, j: l('i', j)
+    B = lambda l, j: l('b', j)
+    for a in AR:
+        for b in AR:
+            prog([a, b, "L"], lambda l, a=a, b=b: ('bin', b, ('bin', a, I(l, 0), I(l, 1)), I(l, 2)), True, False)
+            prog([a, b, "R"], lambda l, a=a, b=b: ('bin', a, I(l, 0), ('bin', b, I(l, 1), I(l, 2))), True, False)
+    for c in CMP:
+        for a in AR:
+            prog([a, c, "L"], lambda l, a=a, c=c: ('bin', c, ('bin', a, I(l, 0), I(l, 1)), I(l, 2)), True, False)
+            prog([c, a, "R"], lambda l, a=a, c=c: ('bin', c, I(l, 0), ('bin', a, I(l, 1), I(l, 2))), True, False)
+        for g in LOG:
+            prog([c, g, "L"], lambda l, c=c, g=g: ('bin', g, ('bin', c, I(l, 0), I(l, 1)), B(l, 2)), True, True)
+            prog([g, c, "R"], lambda l, c=c, g=g: ('bin', g, B(l, 0), ('bin', c, I(l, 1), I(l, 2))), True, True)
+    for g in LOG + ['==', '!=']:
+        for h in LOG + ['==', '!=']:
+            prog([g, h, "L"], lambda l, g=g, h=h: ('bin', h, ('bin', g, B(l, 0), B(l, 1)), B(l, 2)), False, True)
+            prog([g, h, "R"], lambda l, g=g, h=h: ('bin', g, B(l, 0), ('bin', h, B(l, 1), B(l, 2))), False, True)
+    for g in LOG + ['==', '!=']:
+        prog(['!', g, "operand"], lambda l, g=g: ('bin', g, ('not', B(l, 0)), B(l, 1)), False, True)
+        prog(['!', g, "whole"], lambda l, g=g: ('not', ('bin', g, B(l, 0), B(l, 1))), False, True)
+        prog([g, '!', "right"], lambda l, g=g: ('bin', g, B(l, 0), ('not', B(l, 1))), False, True)
+    for a in AR + CMP:
+        prog(['neg', a, "operand"], lambda l, a=a: ('bin', a, ('neg', I(l, 0)), I(l, 1)), True, False)
+        prog([a, 'neg', "right"], lambda l, a=a: ('bin', a, I(l, 0), ('neg', I(l, 1))), True, False)
+        if a in AR:
+            prog(['neg', a, "whole"], lambda l, a=a: ('neg', ('bin', a, I(l, 0), I(l, 1))), True, False)
+    for a in AR:   # string concatenation next to arithmetic: "s" + a * b, "s" + a + b, a + b + "s"
+        prog(['str+', a, "R"], lambda l, a=a: ('bin', '+', ('str', "s"), ('bin', a, I(l, 0), I(l, 1))), True, False)
+        prog(['str+', a, "L"], lambda l, a=a: ('bin', a if a == '+' else '+', ('bin', '+', ('str', "s"), I(l, 0)), I(l, 1)) if a == '+'
+             else ('bin', '+', ('bin', a, I(l, 0), I(l, 1)), ('str', "s")), True, False)
     return out
